@@ -73,10 +73,13 @@ impl<K, V, const N: usize> Map<K, V, N> {
     /// ```
     #[inline]
     pub fn clear(&mut self) {
-        for i in 0..self.len {
+        // forget the elements first: if an element's destructor panics, the
+        // rest is leaked instead of being dropped again later
+        let len = self.len;
+        self.len = 0;
+        for i in 0..len {
             unsafe { self.item_drop(i) };
         }
-        self.len = 0;
     }
 
     /// Retains only the elements specified by the predicate.
